@@ -641,8 +641,8 @@ func noneOf(gs []*Form) *Form {
 func anyOf(gs []*Form) *Form { return fOr(gs...) }
 
 // atom helpers: names are built from the actual parameter names.
-func (r *e1Result) A(field string) *Form { return fLit(r.R + "." + field) }          // boolean field
-func (r *e1Result) NilF(field string) *Form { return fLit(r.R + "." + field + " == nil") } // pointer/func/slice field == nil
+func (r *e1Result) A(field string) *Form     { return fLit(r.R + "." + field) }             // boolean field
+func (r *e1Result) NilF(field string) *Form  { return fLit(r.R + "." + field + " == nil") } // pointer/func/slice field == nil
 func (r *e1Result) ZeroF(field string) *Form { return fLit(r.R + "." + field + " == 0") }
 func (r *e1Result) FlagSet(name string) *Form {
 	v := r.p.Unix(name)
